@@ -327,6 +327,38 @@ func init() {
 		c11Scribble(hits)
 		return t, n
 	}
+	// ---- no mutable state shared between calls: the same pattern text searched case-insensitively and case-sensitively in
+	// one process, in both orders (rep parity), must give what an equivalent pattern with another text - "(?:" + P + ")",
+	// same language - gives under the same flag: a cache keyed by the pattern text alone shows up here (seeded change C11-3)
+	c11Ops["search_history"] = func(st *c11State, param string, rep int) (string, int) {
+		r := c11Dump(st)
+		if r == nil {
+			return "err", 0
+		}
+		p := c11Split(param)
+		pat := c11Str(p[0])
+		run := func(pt string, cs bool) string {
+			hits, err := pgdump.SearchInDump(r, &pgdump.SearchOptions{Pattern: pt, CaseSensitive: cs, IncludeRow: false})
+			if err != nil {
+				return "err"
+			}
+			return fmt.Sprintf("%d:", len(hits)) + c11JSON(hits)
+		}
+		var ins, sens string
+		if rep%2 == 0 {
+			ins, sens = run(pat, false), run(pat, true)
+		} else {
+			sens, ins = run(pat, true), run(pat, false)
+		}
+		if sens != run("(?:"+pat+")", true) || ins != run("(?:"+pat+")", false) {
+			return "SHARED-STATE:result of a search depends on an earlier search with the same pattern text", 0
+		}
+		n, _ := strconv.Atoi(strings.SplitN(ins, ":", 2)[0])
+		if ins == sens {
+			n = 0 // unobservable: the data do not distinguish the two flags
+		}
+		return ins + "/" + sens, n
+	}
 	c11Ops["search"] = func(st *c11State, param string, rep int) (string, int) {
 		hits, err := pgdump.Search(st.env.dir, searchOpts(param))
 		if err != nil {
@@ -570,6 +602,9 @@ func init() {
 		if strings.HasPrefix(first, "MUTATED-INPUT") {
 			return "MUTATED-INPUT:" + a[0]
 		}
+		if strings.HasPrefix(first, "SHARED-STATE") {
+			return "shared-state:" + a[0]
+		}
 		if n < need {
 			return fmt.Sprintf("unobservable:%s:%d", a[0], n)
 		}
@@ -577,6 +612,9 @@ func init() {
 			out, _ := op(st, a[3], i)
 			if strings.HasPrefix(out, "MUTATED-INPUT") {
 				return "MUTATED-INPUT:" + a[0]
+			}
+			if strings.HasPrefix(out, "SHARED-STATE") {
+				return "shared-state:" + a[0]
 			}
 			if out != first {
 				return "nondeterministic:" + a[0]
